@@ -132,7 +132,8 @@ def float_literal_decls():
     for ty in ("f32", "f64"):
         for x in (1.0, 16777216.0, 0.1, 1e10, 3.0):
             base = f_bits(ty, x)
-            for text in midpoint_texts(ty, base) + midpoint_texts(ty, base - 1):
+            extra = ["1e3", "2.5e-3", "1.5E2", "12e-1"] if x == 1.0 else []       # exponent notation: a literal with a letter in it
+            for text in midpoint_texts(ty, base) + midpoint_texts(ty, base - 1) + extra:
                 if text.startswith("-") or len(text) > 60:
                     continue
                 b = round_decimal(ty, text)
